@@ -43,10 +43,18 @@ Fixpoint write_rows_at (rows : list (list Z)) (new : list (list Z)) (index : lis
   | r :: nr, i :: ir => write_rows_at (set_nth rows i r) nr ir
   | _, _ => rows
   end.
+(* h5py takes a list of row numbers only in strictly increasing order (TypeError otherwise): an
+   unordered or repeated index list is REFUSED, it is not written in some other order *)
+Fixpoint increasing (l : list nat) : bool :=
+  match l with
+  | a :: ((b :: _) as r) => Nat.ltb a b && increasing r
+  | _ => true
+  end.
 Definition write_rows (t : table) (new : list (list Z)) (index : list nat) : option table :=
   if negb (Nat.eqb (length new) (length index)) then None
   else if negb (forallb (fun i => Nat.ltb i (nrows t)) index) then None
   else if negb (forallb (row_ok t) new) then None
+  else if negb (increasing index) then None
   else Some (mkT (t_cols t) (write_rows_at (t_rows t) new index)).
 
 (* write_cell(cell, position=(row, col)) *)
